@@ -47,7 +47,11 @@ let run (cases : case list) =
       (match toks with
        | ["hs"; mode; tmpl; cuts; close_at; frames; extra] ->
          let acc = zl_of_string (kv_def t "acc" "") in
-         let out = replace_all (zlist_of_hex tmpl) (zl_of_string "@A@") acc @ zlist_of_hex frames in
+         (* @S@: the right accept value with the case of every letter swapped (base64 is case sensitive: a wrong value) *)
+         let swap z = let c = int_of_z z in
+           if c >= 65 && c <= 90 then z_of_int (c + 32) else if c >= 97 && c <= 122 then z_of_int (c - 32) else z in
+         let out = replace_all (replace_all (zlist_of_hex tmpl) (zl_of_string "@A@") acc) (zl_of_string "@S@") (List.map swap acc)
+                   @ zlist_of_hex frames in
          let close_at = int_of_string close_at in
          closed := close_at >= 0 && close_at < List.length out;
          let out = if close_at >= 0 && close_at < List.length out then take close_at out else out in
